@@ -76,8 +76,13 @@ def c14_1(ctx):
             for c in rest:
                 t = N(c)
                 accepted = (NS("isinstance(%s, str) or not hasattr(%s, '__len__')" % (x, x)), NS("not hasattr(%s, '__len__') or isinstance(%s, str)" % (x, x)),
-                            NS("not hasattr(%s, '__len__')" % x), NS("isinstance(%s, (str, bytes)) or not hasattr(%s, '__len__')" % (x, x)))
+                            NS("isinstance(%s, (str, bytes)) or not hasattr(%s, '__len__')" % (x, x)))
                 if t in accepted:
+                    continue
+                if t == NS("not hasattr(%s, '__len__')" % x):
+                    # a str has __len__ and is still a scalar here: 'a' == np.array(['a', 'a']) broadcasts to all-True
+                    bad_scalar = (g, "a string on the left has __len__, so the guard is skipped for it and `x == y` broadcasts over the container (eq('a', np.array(['a', 'a'])) is True, the swapped call False)")
+                    ok = False
                     continue
                 if 'isscalar' in t:
                     bad_scalar = (g, 'np.isscalar(%s) is False for None, datetime and pd.Timestamp: for those scalars the guard is skipped and x == y broadcasts' % x)
